@@ -300,6 +300,107 @@ def conditional_persists(evs):
     return out
 
 
+def parse_tree(body):
+    """body text -> nested list: ("stmt", text) | ("block", header text, children)"""
+    body = re.sub(r'"(?:\\.|[^"\\])*"', '""', body)
+    pos = [0]
+
+    def block():
+        items, cur = [], []
+        while pos[0] < len(body):
+            ch = body[pos[0]]
+            pos[0] += 1
+            if ch == ";":
+                t = "".join(cur)
+                cur = []
+                if t.strip():
+                    items.append(("stmt", t))
+            elif ch == "{":
+                header = "".join(cur)
+                cur = []
+                items.append(("block", header, block()))
+            elif ch == "}":
+                t = "".join(cur)
+                if t.strip():
+                    items.append(("stmt", t))
+                return items
+            else:
+                cur.append(ch)
+        t = "".join(cur)
+        if t.strip():
+            items.append(("stmt", t))
+        return items
+    return block()
+
+
+MAX_PATHS = 64
+
+
+def stmt_events(text, fname, universe, flat_of):
+    """flat events of one brace-free statement: its own classification, callees inlined (as in `expand`)"""
+    out = []
+    for ev, _ in raw_shape(text, fname, universe):
+        if ev[0] != "calls":
+            out.append(ev)
+            continue
+        _, names, fallible, swallowed = ev
+        callees = [flat_of(n) for n in names]
+        effectful = [c for c in callees if any(e[0] in ("mutate", "persist") for e in c)]
+        if not effectful:
+            if not swallowed and (fallible or any(e[0] == "check" or (e[0] == "mutate" and e[2]) for c in callees for e in c)):
+                out.append(("check", None, False))
+            continue
+        for c in effectful:
+            for e in c:
+                if swallowed and e[0] == "check":
+                    continue
+                if swallowed and e[0] == "mutate" and e[2]:
+                    e = ("mutate", e[1], False)
+                out.append(e)
+    return out
+
+
+def tree_paths(items, fname, universe, flat_of):
+    """the maximal execution paths through a statement tree: the blocks of one `if / else if / else` chain and
+    the braced arms of one `match` are alternatives (one of them per path), every other block is taken"""
+    res = [[]]
+    i, closed_events = 0, False
+    while i < len(items):
+        it = items[i]
+        if it[0] == "stmt":
+            if re.fullmatch(r"[\s)]*\)\s*\?\s*", it[1]) and closed_events:
+                i += 1
+                closed_events = False
+                continue
+            evs = stmt_events(it[1], fname, universe, flat_of)
+            res = [p + evs for p in res]
+            closed_events = False
+            i += 1
+            continue
+        group, j = [it], i + 1
+        if re.search(r"=>\s*$", it[1]):
+            while j < len(items) and items[j][0] == "block" and re.search(r"=>\s*$", items[j][1]):
+                group.append(items[j])
+                j += 1
+        else:
+            while j < len(items) and items[j][0] == "block" and re.match(r"\s*else\b", items[j][1]):
+                group.append(items[j])
+                j += 1
+        alts = []
+        for (_, header, children) in group:
+            h = re.sub(r"^\s*else\b", "", header)
+            hev = stmt_events(h, fname, universe, flat_of) if h.strip() else []
+            for q in tree_paths(children, fname, universe, flat_of):
+                if hev + q not in alts:
+                    alts.append(hev + q)
+        closed_events = any(alts_ for alts_ in alts)
+        res = [p + a for p in res for a in alts]
+        if len(res) > MAX_PATHS:
+            raise ExtractError(f"{fname}: more than {MAX_PATHS} execution paths")
+        i = j
+    return res
+
+
 def handler_arms(src):
     """[(handler tag, message name, arm text)] of the `do_handle` match of RootHandler and ChannelHandler"""
     arms = []
@@ -444,6 +545,48 @@ def extract(repo):
     lean.append("def armEvs : Arm → List Ev")
     for a in live_arms:
         lean.append(f"  | .{a} => [" + ", ".join(lean_ev(x) for x in flat(full[a])) + "]")
+    lean.append("")
+    # `Handler::with_persist`: enter, run the request, prepare; a refused request with pending mutations aborts
+    wp = re.search(r"fn\s+with_persist\s*\(", hsrc)
+    if not wp:
+        raise ExtractError("handler.rs: Handler::with_persist not found")
+    wb = hsrc.find("{", hsrc.find(")", wp.end()))
+    d, e = 0, wb
+    while e < len(hsrc):
+        if hsrc[e] == "{":
+            d += 1
+        elif hsrc[e] == "}":
+            d -= 1
+            if d == 0:
+                break
+        e += 1
+    wtxt = re.sub(r"#\[cfg[^\]]*\]\s*debug!\([^;]*;", "", hsrc[wb + 1:e])
+    wtxt = re.sub(r"\s+", "", re.sub(r'"(?:\\.|[^"\\])*"', '""', wtxt))
+    wp_form = (r"letnode=self\.node\(\);letpersister=node\.get_persister\(\);persister\.enter\(\)\.map_err\(\|e\|\{.*?\}\)\?;"
+               r"letresult=f\(&\*node\);letmuts=persister\.prepare\(\);"
+               r"matchresult\{Ok\(\(\)\)=>Ok\(muts\),Err\(e\)=>\{if!muts\.is_empty\(\)\{panic!\(\"\"\);\}Err\(e\)\}\}")
+    if not re.fullmatch(wp_form, wtxt):
+        raise ExtractError("Handler::with_persist no longer has the form enter / f / prepare / Ok => muts / Err => panic if stranded: " + wtxt[:300])
+    lean.append("/-- `Handler::with_persist` (handler.rs) has, in the current source, exactly the form")
+    lean.append("    `enter()?; let result = f(node); let muts = prepare(); match result { Ok => Ok(muts), Err(e) => { if !muts.is_empty() { panic! } Err(e) } }`")
+    lean.append("    (= `Props/C10.withPersist`); the extractor fails closed on any other text -/")
+    lean.append("def withPersistForm : Bool := true")
+    lean.append("")
+    # execution paths of the arms (alternatives of if/else chains and braced match arms separated)
+    arm_text = {f"{tag}_{msg}": text for tag, msg, text in arms}
+    flat_of = lambda n: flat(full[n])
+    arm_paths = {}
+    for a in live_arms:
+        ps = []
+        for p_ in tree_paths(parse_tree(norm(arm_text[a])), a, universe, flat_of):
+            if p_ not in ps:
+                ps.append(p_)
+        arm_paths[a] = ps
+    lean.append("/-- the maximal execution paths of each arm: the blocks of one `if / else if / else` chain and the braced arms of")
+    lean.append("    one `match` are alternatives (one per path), every other block is taken; callees are inlined flat -/")
+    lean.append("def armPaths : Arm → List (List Ev)")
+    for a in live_arms:
+        lean.append(f"  | .{a} => [" + ", ".join("[" + ", ".join(lean_ev(x) for x in p_) + "]" for p_ in arm_paths[a]) + "]")
     lean.append("")
     cond_fn = [(n, conditional_persists(full[n])) for _, n, _ in rows]
     cond_arm = [(a, conditional_persists(full[a])) for a in live_arms]
